@@ -92,6 +92,9 @@ pub struct SimCfg {
     /// percentage of (endpoint, tick) pairs in which the application does not flush (no get_packets_to_send): the next
     /// flush then follows two or more update() calls
     pub skip_send_pct: u64,
+    /// both endpoints are built with `ConnectionConfig::default()`; `up`/`down` then hold what the library documents
+    /// for it: the channel `DefaultChannel::X` (its id is `u8::from(DefaultChannel::X)`) is of kind X
+    pub library_default: bool,
 }
 
 impl SimCfg {
@@ -106,6 +109,9 @@ impl SimCfg {
         self.chans(dir).iter().find(|c| c.id == ch)
     }
     pub fn connection_config(&self) -> ConnectionConfig {
+        if self.library_default {
+            return ConnectionConfig::default();
+        }
         ConnectionConfig {
             available_bytes_per_tick: self.bytes_per_tick,
             server_channels_config: self.down.iter().map(|c| c.to_config()).collect(),
@@ -127,6 +133,7 @@ impl SimCfg {
             "link_down": self.link_down.iter().map(|l| format!("{:?}/loss{}/dup{}/delay{}", l.profile, l.loss_pct, l.dup_pct, l.max_delay)).collect::<Vec<_>>(),
             "shuffle_phases": self.shuffle_phases,
             "skip_send_pct": self.skip_send_pct,
+            "library_default_config": self.library_default,
         })
     }
 }
@@ -793,6 +800,17 @@ pub fn brief(p: &Packet) -> String {
     }
 }
 
+/// What the library documents for `ConnectionConfig::default()`: three channels named by `DefaultChannel`, 5 MiB each,
+/// reliable ones resent after 300 ms. Ids are taken from the enum's own conversion, kinds from the variant names.
+pub fn default_channel_specs() -> Vec<ChanSpec> {
+    use renet::DefaultChannel as D;
+    vec![
+        ChanSpec { id: u8::from(D::Unreliable), kind: Kind::Unreliable, resend_ms: 0, max_mem: 5 * 1024 * 1024 },
+        ChanSpec { id: u8::from(D::ReliableUnordered), kind: Kind::ReliableUnordered, resend_ms: 300, max_mem: 5 * 1024 * 1024 },
+        ChanSpec { id: u8::from(D::ReliableOrdered), kind: Kind::ReliableOrdered, resend_ms: 300, max_mem: 5 * 1024 * 1024 },
+    ]
+}
+
 /// Random but sane configuration generator used by several properties.
 pub struct CfgGen {
     pub max_clients: usize,
@@ -903,7 +921,12 @@ impl CfgGen {
             link_up.push(LinkCfg::from_profile(p, r));
             link_down.push(LinkCfg::from_profile(q, r));
         }
+        // the configuration an application gets without writing one: ConnectionConfig::default(), addressed through
+        // the DefaultChannel enum
+        let library_default = r.chance(1, 10) && self.min_bytes_per_tick <= 60_000;
+        let (up, down, bytes_per_tick) = if library_default { (default_channel_specs(), default_channel_specs(), 60_000) } else { (up, down, bytes_per_tick) };
         SimCfg {
+            library_default,
             n_clients,
             up,
             down,
